@@ -70,6 +70,12 @@ def handle : List Sexp → Option Sexp
   | [atom "multi_run", h] => do
       let (frs, fs) := multiTrace (← parseRegs h)
       pure (list [list frs, ofBools fs])
+  | [atom "helper_best", h] => do
+      pure (optId (helperBest (← parseRegs h)))
+  | [atom "helper_is_better", h] => do
+      match ← parseRegs h with
+      | [a, b] => pure (ofBool (helperIsBetter a b))
+      | _ => none
   | [atom "search_result", t, h] => do
       let t ← parseTracker t
       pure (optId (t.presentAll (← parseRegs h)).best?)
